@@ -14,6 +14,7 @@ var commands = map[string]func([]string){
 	"c02gen":  cmdC02Gen,
 	"serve":   cmdServe,
 	"life":    cmdLife,
+	"nf":      cmdNF,
 	"c07":     cmdC07,
 	"cfgs":    cmdCfgs,
 	"c14gen":  cmdC14Gen,
